@@ -105,7 +105,7 @@ CHECKS["C12"] = (
     "Coq proof (lists) about a hand-written table-level store model and the batch readers regenerated from source; exact vm_compute correspondence replaying operation sequences executed on real files",
     "Model/Store.v: store = optional table (ordered header of (name, unit), metadata t_ref/poly_trend/n_offsets, rows); write/overwrite/append "
     "with refusal kinds, read, read_batch by slice and by index with unit factors. Theorems: read after write returns the table written; an "
-    "append is accepted iff header (names, order, units -- compatibility is EQUALITY, so fewer/more columns are refused) and metadata agree; overwrite together with append replaces the table (finding D14, fixed) "
+    "append is accepted iff header (names, order, units -- compatibility is EQUALITY, so fewer/more columns are refused) and metadata agree; overwrite together with append replaces the table (finding D14, fixed); tables with one single-precision column are read bit for bit by every reader (finding D15, fixed) "
     "and then rows are concatenated; any sequence of compatible appends yields the concatenation in order; a refused write leaves the store "
     "unchanged; slice reads return exactly rows lo+k*step<hi, index reads one row per index in the given order with repeats. "
     "tools/py2v_readbatch.py regenerates Gen/ReadBatchGen.v from utils.read_batch / read_batch_slice / read_batch_idx / read_random_batch "
